@@ -923,6 +923,205 @@ def worker_project(job: T.Tuple[T.Any, ...]) -> dict:
 
 
 # ------------------------------------------------------------------------------------------------
+# what an earlier run / an editor left in the build directory at the paths configure_file() writes through
+# (`<output>` and the temporary `<output>~`): none of it may show in the generated file
+# ------------------------------------------------------------------------------------------------
+LEFTOVER_CLASSES = ['longer-previous-plus-tail', 'longer-previous-plus-tail', 'longer-foreign', 'longer-foreign',
+                    'longer-binary', 'shorter', 'empty', 'previous-output', 'one-byte-longer']
+LEFTOVER_TAIL = {'c': '#define LEFTOVER_%d 1\n\n', 'nasm': '%%define LEFTOVER_%d 1\n\n', 'json': ', "LEFTOVER_%d": 1}',
+                 'template': 'leftover line %d @LEFTOVER@ ${LEFTOVER}\n', 'crlf': 'leftover line %d\r\n'}
+
+
+def leftover_content(rng: random.Random, cls: str, prev: bytes, flavour: str) -> bytes:
+    """Content of a pre-existing file, relative to `prev` (what the same output held before / will be near)."""
+    if cls == 'longer-previous-plus-tail':      # a killed generation of a LARGER configuration / longer template
+        tail = LEFTOVER_TAIL[flavour if rng.random() < 0.8 else 'crlf']
+        return prev + ''.join(tail % j for j in range(rng.randint(1, 40))).encode('utf-8')
+    if cls == 'longer-foreign':                 # an editor backup / somebody else's file of that name
+        line = rng.choice(['/* foreign %d */\n', '#define FOREIGN_%d "x"\n', 'foreign text %d\r\n', '{"foreign": %d}\n'])
+        n = (2 * len(prev) + rng.randint(200, 3000)) // 14 + 1
+        return ''.join(line % j for j in range(n)).encode('utf-8')
+    if cls == 'longer-binary':
+        return bytes(rng.randrange(256) for _ in range(len(prev) + rng.randint(1, 600)))
+    if cls == 'shorter':
+        return prev[:rng.randint(0, max(0, len(prev) - 1))] if prev and rng.random() < 0.5 else b'x\n'
+    if cls == 'empty':
+        return b''
+    if cls == 'one-byte-longer':
+        return prev + rng.choice([b'\n', b'}', b'Z', b'\x00'])
+    return prev                                  # 'previous-output'
+
+
+def classify_leftover(got: bytes, planted: T.Mapping[str, T.Mapping[str, str]]) -> str:
+    """WHY a generated file differs when files pre-existed: which planted file shows through, and how."""
+    tmp = planted['tmp']['content'].encode('latin-1') if 'tmp' in planted else None
+    out = planted['out']['content'].encode('latin-1') if 'out' in planted else None
+    if tmp is not None and tmp and got == tmp:
+        return 'temporary-file-content-kept-whole'
+    if out is not None and out and got == out:
+        return 'existing-output-not-replaced'
+    if tmp is not None and len(got) == len(tmp) and got[-1:] == tmp[-1:]:
+        return 'temporary-file-not-truncated-old-tail-survives'
+    if out is not None and len(got) == len(out) and got[-1:] == out[-1:]:
+        return 'existing-output-not-truncated-old-tail-survives'
+    return 'other'
+
+
+def plant_leftovers(rng: random.Random, bdir: str, items: T.List[dict], bag: 'Bag') -> None:
+    os.makedirs(bdir, exist_ok=True)
+    for it in items:
+        it['planted'] = {}
+        if rng.random() < 0.35:
+            continue
+        fn = it['name'] + '.out' if it['kind'] == 'template' else it['name']
+        flavour = 'template' if it['kind'] == 'template' else it['output_format']
+        prev = (it.get('last_disk') or '').encode('utf-8')
+        where = rng.choice(['tmp', 'tmp', 'both', 'out'])
+        for w in (('tmp', 'out') if where == 'both' else (where,)):
+            cls = rng.choice(LEFTOVER_CLASSES)
+            content = leftover_content(rng, cls, prev, flavour)
+            with open(os.path.join(bdir, fn + ('~' if w == 'tmp' else '')), 'wb') as f:
+                f.write(content)
+            it['planted'][w] = {'class': cls, 'content': content.decode('latin-1')}
+            bag.cells[f'history-leftover:{w}:{cls}'] = bag.cells.get(f'history-leftover:{w}:{cls}', 0) + 1
+
+
+def _leftover_generate(spec: dict, path: str) -> None:
+    """Run the REAL writer (dump_conf_header / do_conf_file) for `spec` with output `path`."""
+    if spec['kind'] == 'header':
+        cd = CD({k: (v, spec['desc'].get(k)) for k, v in spec['data'].items()})
+        U.dump_conf_header(path, cd, spec['output_format'], spec['macro_name'])
+    else:
+        with MLOG.no_logging():
+            U.do_conf_file(spec['src'], path, CD(dict(spec['data'])), spec['fmt'])
+
+
+def leftover_one(spec: dict, plan: T.Mapping[str, T.Mapping[str, str]], root: str, tag: str) -> T.Tuple[bytes, bool]:
+    """Generate into a directory that already holds the planted files; returns (bytes on disk, `~` still there)."""
+    d = os.path.join(root, tag)
+    os.makedirs(d)
+    path = os.path.join(d, spec['out'])
+    for w, pl in plan.items():
+        with open(path + ('~' if w == 'tmp' else ''), 'wb') as f:
+            f.write(pl['content'].encode('latin-1'))
+    _leftover_generate(spec, path)
+    with open(path, 'rb') as f:
+        got = f.read()
+    left = os.path.exists(path + '~')
+    shutil.rmtree(d, ignore_errors=True)
+    return got, left
+
+
+def leftover_spec(rng: random.Random, root: str, i: int) -> T.Optional[dict]:
+    if i % 2:
+        h = G.gen_header_case(rng)
+        ext = {'c': 'h', 'nasm': 'asm', 'json': 'json'}[h['output_format']]
+        return {'kind': 'header', 'out': 'config.' + ext, 'data': dict(h['data']), 'desc': dict(h['desc']),
+                'output_format': h['output_format'], 'macro_name': h['macro_name'], 'flavour': h['output_format']}
+    case = G.gen_case(rng, charset='ascii', risky=False, allow_newline_values=False)
+    if run_real(case['text'], case['data'], case['fmt'])[0] != 'ok':
+        return None
+    src = os.path.join(root, f't{i}.in')
+    with open(src, 'wb') as f:
+        f.write(case['text'].encode('utf-8'))
+    return {'kind': 'template', 'out': 'out.txt', 'src': src, 'text': case['text'], 'data': dict(case['data']),
+            'fmt': case['fmt'], 'flavour': 'template'}
+
+
+def leftover_bigger(rng: random.Random, spec: dict, root: str, tag: str) -> bytes:
+    """What a generation of a LARGER configuration / longer template writes (the complete `<output>~` that a run killed
+    just before the rename leaves behind) - produced by the real writer itself."""
+    big = dict(spec)
+    extra = rng.randint(1, 12)
+    if spec['kind'] == 'header':
+        big['data'] = dict(spec['data'], **{f'HAVE_FEATURE_{j:02d}': rng.choice([True, False, 7, '"s"']) for j in range(extra)})
+        big['desc'] = dict(spec['desc'], **{f'HAVE_FEATURE_{j:02d}': f'whether feature {j} was found' for j in range(0, extra, 2)})
+    else:
+        big['src'] = os.path.join(root, tag + '.in')
+        with open(big['src'], 'wb') as f:
+            f.write((spec['text'] + ('' if spec['text'].endswith('\n') or not spec['text'] else '\n') +
+                     ''.join(f'more text {j}\n' for j in range(extra))).encode('utf-8'))
+    got, _ = leftover_one(big, {}, root, tag)
+    return got
+
+
+def worker_leftover(job: T.Tuple[int, int, int]) -> dict:
+    """Differential on the real writers: the same generation into a FRESH directory and into directories that already
+    hold files at `<output>` / `<output>~` (longer, shorter, foreign, binary, the complete temporary of a killed larger
+    generation): the bytes produced must be the same."""
+    seed, idx, n = job
+    rng = random.Random(f'C14:leftover:{seed}:{idx}')
+    bag = Bag()
+    K.REC.reset()
+    root = __import__('tempfile').mkdtemp(prefix='c14l-')
+    try:
+        for i in range(n):
+            spec = leftover_spec(rng, root, i)
+            if spec is None:
+                continue
+            try:
+                ref, _ = leftover_one(spec, {}, root, f'fresh{i}')
+                killed = leftover_bigger(rng, spec, root, f'big{i}')
+            except Exception as e:
+                bag.tally.add('leftover:writer-rejects-case-in-fresh-directory')
+                continue
+            bag.cases += 1
+            bag.shapes.add(common.digest(('leftover', spec['kind'], spec.get('fmt') or spec.get('output_format'), len(ref) // 64)))
+            plans: T.List[dict] = [{'tmp': {'class': 'temporary-of-a-killed-larger-generation', 'content': killed.decode('latin-1')}}]
+            for _j in range(3):
+                plan: dict = {}
+                where = rng.choice(['tmp', 'tmp', 'both', 'out'])
+                for w in (('tmp', 'out') if where == 'both' else (where,)):
+                    cls = rng.choice(LEFTOVER_CLASSES + ['equal-to-new-content'])
+                    content = ref if cls == 'equal-to-new-content' else leftover_content(rng, cls, ref, spec['flavour'])
+                    plan[w] = {'class': cls, 'content': content.decode('latin-1')}
+                plans.append(plan)
+            for j, plan in enumerate(plans):
+                try:
+                    got, left = leftover_one(spec, plan, root, f'dirty{i}_{j}')
+                except Exception as e:
+                    bag.note('file:leftover-in-build-dir-influences-output:generation-fails',
+                             {'mode': 'leftover', 'spec': spec, 'plan': plan, 'detail': {'error': type(e).__name__ + ': ' + str(e)}})
+                    continue
+                bag.tally.add('monitor:leftover-files-do-not-influence-output')
+                for w, pl in plan.items():
+                    c = f'leftover:{spec["kind"]}:{w}:{pl["class"]}'
+                    bag.cells[c] = bag.cells.get(c, 0) + 1
+                if any(len(pl['content']) > len(ref) for w, pl in plan.items() if w == 'tmp'):
+                    bag.tally.add('monitor:leftover-temporary-longer-than-new-content')
+                if left:
+                    bag.tally.add('leftover:temporary-still-present-afterwards')
+                if got != ref:
+                    bag.note('file:leftover-in-build-dir-influences-output:' + classify_leftover(got, plan),
+                             {'mode': 'leftover', 'spec': spec, 'plan': plan,
+                              'detail': {'in_fresh_directory': ref.decode('latin-1'), 'with_leftovers': got.decode('latin-1')}})
+        drain_contracts(bag)
+    finally:
+        shutil.rmtree(root, ignore_errors=True)
+    return bag.export()
+
+
+def replay_leftover(w: dict) -> int:
+    root = common.scratch_dir('c14r')
+    spec = dict(w['spec'])
+    if spec['kind'] == 'template':
+        spec['src'] = os.path.join(root, 't.in')
+        with open(spec['src'], 'wb') as f:
+            f.write(spec['text'].encode('utf-8'))
+    try:
+        ref, _ = leftover_one(spec, {}, root, 'fresh')
+        got, _ = leftover_one(spec, w['plan'], root, 'dirty')
+        bad = got != ref
+    except Exception as e:
+        print('[C14] replay: generation raised', repr(e))
+        bad = True
+    print('[C14] replay: planted', {k: (v['class'], len(v['content'])) for k, v in w['plan'].items()},
+          '-> generated file', 'DIFFERS from the one a fresh directory gets' if bad else 'equals the one a fresh directory gets')
+    print('[C14] replay: witness', 'STILL FAILS' if bad else 'no longer fails')
+    return 1 if bad else 0
+
+
+# ------------------------------------------------------------------------------------------------
 # histories on ONE build directory: configure, edit template/data, reconfigure, compare what is on disk
 # ------------------------------------------------------------------------------------------------
 def item_statements(it: dict) -> T.List[str]:
@@ -1028,18 +1227,28 @@ def check_history_round(bdir: str, items: T.List[dict], bag: Bag, rnd: int, r: T
         bag.tally.add('monitor:history-output-current')
         bag.cells['history-edit:' + (it['edits'][-1] if it['edits'] else 'initial')] = \
             bag.cells.get('history-edit:' + (it['edits'][-1] if it['edits'] else 'initial'), 0) + 1
+        planted = it.get('planted') or {}
         witness = {'mode': 'history', 'kind': it['kind'], 'edits': list(it['edits']),
                    'rounds': it['rounds'] + [{'statements': item_statements(it),
-                                              'template': it.get('text')}],
-                   'item': {k: it[k] for k in ('name', 'fmt', 'output_format', 'macro_name', 'data') if k in it}}
+                                              'template': it.get('text'), 'planted': planted}],
+                   'item': {k: (dict(it[k]) if k == 'data' else it[k])     # a copy: later rounds edit it['data']
+                            for k in ('name', 'fmt', 'output_format', 'macro_name', 'data') if k in it}}
+        if planted:
+            bag.tally.add('monitor:history-output-current-despite-leftover-files')
+        raw = b''
         try:
             fn = it['name'] + '.out' if it['kind'] == 'template' else it['name']
-            with open(os.path.join(bdir, fn), encoding='utf-8', newline='') as f:
-                got = f.read()
+            with open(os.path.join(bdir, fn), 'rb') as f:
+                raw = f.read()
+            got = io.TextIOWrapper(io.BytesIO(raw), encoding='utf-8', newline='').read()
         except (OSError, UnicodeDecodeError) as e:
-            bag.note('file:output-unreadable', dict(witness, detail={'error': repr(e)}))
+            mech = 'file:output-unreadable'
+            if planted:
+                mech = 'file:leftover-in-build-dir-influences-output:' + classify_leftover(raw, planted)
+            bag.note(mech, dict(witness, detail={'error': repr(e)}))
             continue
-        stale = it.get('last_disk') is not None and got == it['last_disk']
+        stale = it.get('last_disk') is not None and got == it['last_disk'] and 'out' not in planted
+        lo_mech = ('file:leftover-in-build-dir-influences-output:' + classify_leftover(raw, planted)) if planted else None
         if it['kind'] == 'template':
             case = {'fmt': it['fmt'], 'text': it['text'], 'data': dict(it['data']), 'markers': {}}
             real = do_case(bag, case, mode='file')
@@ -1048,12 +1257,12 @@ def check_history_round(bdir: str, items: T.List[dict], bag: Bag, rnd: int, r: T
                 continue
             want = ''.join(real[1])
             if got != want:
-                mech = 'file:stale-output-kept-after-reconfigure' if stale else 'file:output-differs-from-do_conf_str'
+                mech = 'file:stale-output-kept-after-reconfigure' if stale else (lo_mech or 'file:output-differs-from-do_conf_str')
                 bag.note(mech, dict(witness, detail={'on_disk': got, 'expected_for_current_template_and_data': want}))
         else:
             why = R.check_header(got, it['data'], it['output_format'], it['macro_name'])
             if why is not None:
-                mech = 'file:stale-output-kept-after-reconfigure' if stale else 'header:' + why.split(':')[0]
+                mech = 'file:stale-output-kept-after-reconfigure' if stale else (lo_mech or 'header:' + why.split(':')[0])
                 bag.note(mech, dict(witness, detail={'why': why, 'on_disk': got}))
         it['last_disk'] = got
 
@@ -1072,6 +1281,7 @@ def write_history_tree(src: str, items: T.List[dict]) -> None:
 def worker_history(job: T.Tuple[int, int, int, int, int]) -> dict:
     seed, idx, nt, nh, nrounds = job
     rng = random.Random(f'C14:history:{seed}:{idx}')
+    prng = random.Random(f'C14:history-leftovers:{seed}:{idx}')
     bag = Bag()
     K.REC.reset()
     root = common.scratch_dir('c14p') if os.getpid() == common._MAIN_PID else None
@@ -1086,7 +1296,8 @@ def worker_history(job: T.Tuple[int, int, int, int, int]) -> dict:
         for rnd in range(nrounds):
             if rnd:
                 for it in items:
-                    it['rounds'].append({'statements': item_statements(it), 'template': it.get('text')})
+                    it['rounds'].append({'statements': item_statements(it), 'template': it.get('text'),
+                                         'planted': it.get('planted') or {}})
                     before = (it.get('text'), dict(it['data']))
                     ed = edit_item(rng, it, rnd)
                     if it['kind'] == 'template' and run_real(it['text'], it['data'], it['fmt'])[0] != 'ok':
@@ -1094,6 +1305,7 @@ def worker_history(job: T.Tuple[int, int, int, int, int]) -> dict:
                         ed = 'none'
                     it['edits'].append(ed)
             write_history_tree(src, items)
+            plant_leftovers(prng, bdir, items, bag)
             argv = ['setup', '--backend=none', bdir] if rnd == 0 else ['setup', '--reconfigure', bdir]
             r = runner.meson(argv, cwd=src, monitors=[K.child_monitor], timeout=120)
             bag.tally.add('history:rounds')
@@ -1126,12 +1338,17 @@ def replay_history(w: dict) -> int:
         if w['kind'] == 'template':
             tree[item['name'] + '.in'] = rd['template'].encode('utf-8')
         runner.write_tree(src, tree)
+        os.makedirs(bdir, exist_ok=True)
+        fn0 = item['name'] + '.out' if w['kind'] == 'template' else item['name']
+        for where, pl in (rd.get('planted') or {}).items():
+            with open(os.path.join(bdir, fn0 + ('~' if where == 'tmp' else '')), 'wb') as f:
+                f.write(pl['content'].encode('latin-1'))
         r = runner.meson(['setup', '--backend=none', bdir] if rnd == 0 else ['setup', '--reconfigure', bdir], cwd=src)
         if r.rc != 0:
             print('[C14] replay: round', rnd, 'failed to configure')
             return 1
     fn = item['name'] + '.out' if w['kind'] == 'template' else item['name']
-    with open(os.path.join(bdir, fn), encoding='utf-8', newline='') as f:
+    with open(os.path.join(bdir, fn), encoding='utf-8', newline='', errors='surrogateescape') as f:
         got = f.read()
     if w['kind'] == 'template':
         real = run_real(w['rounds'][-1]['template'], item['data'], item['fmt'])
@@ -1267,6 +1484,8 @@ def replay(chk: common.Check, path: str) -> int:
     src = w.get('minimised') or w
     if mode == 'history':
         return replay_history(w)
+    if mode == 'leftover':
+        return replay_leftover(w)
     if mode == 'file' and w.get('sequence'):
         sq = w['sequence']
         tmp = common.scratch_dir('c14r')
@@ -1466,6 +1685,13 @@ def main() -> int:
     for part in common.pmap(worker_history, [(chk.seed, i, 6, 5, 4) for i in range(nhist)], jobs):
         merge(chk, total, part)
 
+    # 6. files already present at `<output>` / `<output>~` (killed earlier generation, editor backup): the real
+    #    writers into a fresh directory and into directories holding such files must produce the same bytes
+    nleft = 320 if quick else 6000
+    lchunks = max(1, min(jobs * 2, 32))
+    for part in common.pmap(worker_leftover, [(chk.seed, i, (nleft + lchunks - 1) // lchunks) for i in range(lchunks)], jobs):
+        merge(chk, total, part)
+
     # ---- verdict -------------------------------------------------------------------------------
     chk.evaluations = total.cases
     chk.distinct = set(total.shapes)
@@ -1493,6 +1719,9 @@ def main() -> int:
         ('monitor:define-line-ending', 1000), ('monitor:file-output-equals', 100), ('monitor:missing-warning', 100),
         ('monitor:header-keys', 30), ('monitor:sequence-steps', 100), ('monitor:format-order-chains', 36),
         ('monitor:sequence-steps-after-another-format', 100), ('monitor:object-read-back-after-configure_file', 50), ('monitor:line-context-independence', 2000), ('monitor:sequence-steps-in-a-family-of-copies', 50), ('monitor:history-output-current', 200),
+        ('monitor:history-output-current-despite-leftover-files', 60),
+        ('monitor:leftover-files-do-not-influence-output', 600),
+        ('monitor:leftover-temporary-longer-than-new-content', 200),
         ('contract:do_conf_str:confstr_line_count_preserved', 1000),
         ('contract:do_replacement_meson:repl_meson_agrees_with_scanner', 10000),
         ('contract:do_define_meson:define_has_documented_form', 500),
@@ -1507,7 +1736,7 @@ def main() -> int:
               'look-alikes/empty/blank/backslash/non-ASCII, int, bool, undefined; 55%% marker-wrapped) x format '
               '(meson/cmake/cmake@), or one template-less header, or one step (configure_file of one of six kinds, or the '
               'final read-back) of a history of configuration_data() objects inside one meson.build - random families '
-              'and every ordered pair / orders of all six kinds on one object; distinct = structural hash of (format, fragment '
+              'and every ordered pair / orders of all six kinds on one object, or one generation (template or template-less header) into a directory that already holds files at <output> / <output>~ (longer, shorter, foreign, binary, the complete temporary of a killed larger generation) compared with the same generation into a fresh directory; distinct = structural hash of (format, fragment '
               'kinds and terminator per line, multiset of value classes, marker mode); plus every concatenation of '
               '<=%d symbols of a %d-symbol escape alphabet x 4 dictionaries; trivial cases (no fragment) are not '
               'excluded from evaluations but collapse to one shape')
@@ -1522,6 +1751,7 @@ def main() -> int:
             'lines are split as a text file opened with newline="" does (\\n, \\r\\n, lone \\r)',
             'file mode trusts the monitor record of do_conf_file/dump_conf_header arguments to confirm that the generated '
             'meson.build carried the intended dictionary',
+            'files that pre-exist at <output> and <output>~ are regular, writable files (symlinks, directories, read-only files at those paths are not explored: the documents say nothing about them)',
             'a configuration_data() object is what the build file made it (set/set10/set_quoted/merge_from, assignment '
             'copies): configure_file() is documented to read it, never to change it; the order of keys() is not demanded; '
             'get_unquoted() is not asked about values shorter than two characters',
